@@ -158,7 +158,7 @@ fn parent(args: &Args) -> SubResult {
         eprintln!("MACHINERY: cannot create {dir:?}: {e}");
         std::process::exit(2)
     });
-    let timeout = Duration::from_secs(if args.thorough() { 1800 } else { 300 });
+    let timeout = Duration::from_secs(if args.thorough() { 3600 } else { 300 });
     struct W {
         k: usize,
         child: std::process::Child,
